@@ -577,5 +577,59 @@ def forwarding_discipline(ctx, rule: str, params: Iterable[str], minimum: int) -
                     ctx.check(ok, rule, fn, s.node, f"{fn.short} -> {c.short} :: {p}", f"{fn.short} calls {c.short} without handing on its `{p}` "
                               f"({'argument omitted: the callee default applies' if a is None else 'passes `' + norm(a)[:40] + '`'})", f"{p}={p} (or a value derived from it)",
                               construct=f"forwarding of {p}: {fn.short} -> {c.short}")
+    # attribute routing: a callee parameter p (one the property speaks about) that is given `<x>.q`, where q is the name of ANOTHER parameter of
+    # the same callee, is a swapped setting (`verify_all_recipients=registry.strict_check_header`, or the same by position)
+    for fn in eng.prog.all_functions():
+        for s in eng.cg.calls_in(fn):
+            if not isinstance(s.node, ast.Call):
+                continue
+            for c in s.callees:
+                cps = set(c.params) - {"self", "cls"}
+                for p in want & cps:
+                    a = eng.cg.arg_for_param(s, c, p)
+                    if isinstance(a, ast.Attribute) and a.attr in cps:
+                        if a.attr == p:
+                            ctx.ok(rule, f"{fn.short} -> {c.short} :: {p}=<…>.{p}", "attribute of the same name")
+                            continue
+                        ctx.fail(rule, fn, s.node, f"{fn.short} gives {c.short} its `{p}` from `{norm(a)}`, the attribute that belongs to the callee's parameter `{a.attr}`: two settings are crossed",
+                                 construct=f"{p} of {c.short} taken from .{a.attr} in {fn.short}")
     ctx.count(rule, n, minimum, f"same-name forwarding sites for {sorted(want)}")
 
+
+
+def octet_length_lint(ctx, rule: str) -> None:
+    """bits -> octets of a quantity that need not be a multiple of 8 (the size of an RSA modulus, of a curve, a bit_length()) rounds UP:
+    `(bits + 7) // 8` (RFC 8017 k, RFC 7518 coordinate size, RFC 7518 6.3 integers).  `bits // 8` drops an octet for P-521 (521 bits, 66 octets)
+    and for RSA moduli such as 2047 bits.  Algorithm parameters (AES key sizes, CEK / IV sizes, hash lengths) are multiples of 8 and not concerned:
+    the operand is recognised by what it is (type of the receiver of `.key_size`, the curve_key_size property, bit_length())."""
+    eng = ctx.eng
+    n = 0
+    for fn in eng.prog.all_functions():
+        for node in fn_nodes(fn):
+            if not (isinstance(node, ast.BinOp) and ((isinstance(node.op, (ast.FloorDiv, ast.Div)) and const_value(node.right) == 8) or
+                                                     (isinstance(node.op, ast.RShift) and const_value(node.right) == 3))):
+                continue
+            lefts = [node.left]
+            bits = False
+            for x in ast.walk(node.left):
+                if isinstance(x, ast.Attribute) and x.attr == "curve_key_size":
+                    bits = True
+                elif isinstance(x, ast.Attribute) and x.attr == "key_size":
+                    td = eng.types.of(fn.module, x.value) if eng.types is not None else None
+                    if td is not None and any(c.startswith("cryptography.") for c in td.classes):
+                        bits = True
+                elif isinstance(x, ast.Call) and isinstance(x.func, ast.Attribute) and x.func.attr == "bit_length":
+                    bits = True
+            if not bits:
+                # through a local: `length = op_key.curve.key_size; length = (length + 7) // 8`
+                for t_ in resolve_all(eng, fn, node.left):
+                    if ".curve.key_size" in t_ or "curve_key_size" in t_ or "bit_length()" in t_:
+                        bits = True
+            if not bits:
+                continue
+            n += 1
+            up = isinstance(node.left, ast.BinOp) and isinstance(node.left.op, ast.Add) and (const_value(node.left.right) == 7 or const_value(node.left.left) == 7)
+            neg = isinstance(node.left, ast.UnaryOp) and isinstance(node.left.op, ast.USub)  # -(-x // 8) is written as (-x) // 8 under a minus
+            ctx.check(up or neg, rule, fn, node, f"{fn.short} :: {norm(node)[:50]}", f"`{norm(node)[:60]}` rounds a bit size that need not be a multiple of 8 DOWN to octets: "
+                      "one octet is lost for P-521 and for RSA moduli of 2047, 1025 ... bits", "(bits + 7) // 8", construct=f"octet length rounded down in {fn.short}")
+    ctx.count(rule, n, 3, "bits -> octets conversions of curve / modulus / integer sizes")
